@@ -7,6 +7,7 @@ CONSTANTS
   BO = 3
   IVALS <- IvSmall
   ASIS = {}
+  CIDS = {0}
   ENV = {"complete", "flip", "stop"}
 INVARIANT InvFixed
 PROPERTY Live
